@@ -357,6 +357,16 @@ theorem C08_range_rows_partial (s : Stats) (hg : s.gcd ≠ 0) (vals : List Nat)
   · rw [h]; exact rangeRows_guarded_exact s hg vals hv lo hi
   · rw [rangeRowsWith_guard_irrelevant _ s _ lo hi h]; exact rangeRows_guarded_exact s hg vals hv lo hi
 
+/-- the source now has the guard (`Gen.RANGE_BELOW_MIN_GUARD = true`, re-extracted on every run; it was
+added by the fix for C08:range-below-min-returns-min-rows): the rows the bitpacked reader reports for
+any query range are exactly the rows holding a value in the range. Removing the guard breaks this
+theorem (and `C08_range_transform_counterexample` shows the witness). -/
+theorem C08_range_rows_exact (s : Stats) (hg : s.gcd ≠ 0) (vals : List Nat)
+    (hv : ∀ v ∈ vals, s.min ≤ v ∧ s.gcd ∣ v - s.min) (lo hi : Nat) :
+    rangeRowsWith Gen.RANGE_BELOW_MIN_GUARD s (vals.map (fun v => (v - s.min) / s.gcd)) lo hi
+      = (List.range vals.length).filter (fun i => decide (lo ≤ vals.getD i 0) && decide (vals.getD i 0 ≤ hi)) :=
+  C08_range_rows_partial s hg vals hv lo hi (Or.inl rfl)
+
 /-- with the guard `if *range.end() < stats.min_value { return None; }` the lookup is exact for every
 query range (this is the behaviour after the pending fix) -/
 theorem C08_range_rows_guarded (s : Stats) (hg : s.gcd ≠ 0) (vals : List Nat)
